@@ -32,7 +32,7 @@ Qed.
 Definition exit_step (fuel:nat) (ev:evt) (r:nat) : M unit :=
   bind get (fun rn => exec_exit mc children fuel (nth r (act rn) 0) ev).
 Definition entry_step (fuel:nat) (ev:evt) (r:nat) : M unit :=
-  bind get (fun rn => exec_entry mc children fuel (nth r (act rn) 0) ev EkPlain).
+  bind get (fun rn => exec_entry cf mc children fuel (nth r (act rn) 0) ev EkPlain).
 
 Lemma exit_regions_seq fuel ev n : forall r rn g,
   exit_regions mc children fuel ev n r rn g = iterM (exit_step fuel ev) (seqn r n) rn g.
@@ -44,11 +44,11 @@ Proof.
 Qed.
 
 Lemma start_regions_seq fuel ev n : forall r rn g,
-  start_regions mc children fuel ev n r rn g = iterM (entry_step fuel ev) (seqn r n) rn g.
+  start_regions cf mc children fuel ev n r rn g = iterM (entry_step fuel ev) (seqn r n) rn g.
 Proof.
   induction n as [|n IH]; intros r rn g; cbn; [reflexivity|].
   unfold entry_step at 1. unfold bind, get. cbn.
-  destruct (exec_entry mc children fuel (nth r (act rn) 0) ev EkPlain rn g) as [[[u|] rn1] g1]; [|reflexivity].
+  destruct (exec_entry cf mc children fuel (nth r (act rn) 0) ev EkPlain rn g) as [[[u|] rn1] g1]; [|reflexivity].
   apply IH.
 Qed.
 End Back.
